@@ -10,7 +10,7 @@
                                        (connect failure, timer, disconnect(), updateMetadata, and the disabled ones)
      CInv                              invariant of every reachable state (C10_reachable) *)
 From AV Require Import Base.Util Model.Framing Model.BrokerClient
-  Proofs.BrokerClientTbl Proofs.BrokerClientInv Proofs.BrokerClientC06 Proofs.BrokerClientC10.
+  Proofs.BrokerClientTbl Proofs.BrokerClientInv Proofs.BrokerClientC06 Proofs.BrokerClientC10 Proofs.BrokerClientExtra.
 
 Theorem C10_reachable : forall evs, CInv (fst (run init evs)).
 Proof. exact reachable_inv. Qed.
@@ -48,10 +48,7 @@ Print Assumptions C10_resend_at_loss.
    never written again, on this or any later connection. *)
 Theorem C10_never_resent : forall evs s outs a h oc b, run init evs = (s, outs) -> outs = a ++ ODef h oc :: b ->
   forall rid, ~ In (OWrite h rid) b.
-Proof.
-  intros evs s outs a h oc b H E rid Hin.
-  destruct (after_fired evs s outs a h oc b H E _ Hin) as [_ X]. exact (X rid eq_refl).
-Qed.
+Proof. exact never_resent. Qed.
 Print Assumptions C10_never_resent.
 
 (* Once per connection: over any stretch of events without a connection loss (from any reachable state), every
@@ -68,7 +65,7 @@ Print Assumptions C10_once_per_connection.
 (* every write carries the id its request was made with *)
 Theorem C10_write_own_id : forall evs s outs h rid, run init evs = (s, outs) -> In (OWrite h rid) outs ->
   nth_error (t_dlog (s_t s)) h = Some rid.
-Proof. intros evs s outs h rid H Hin. destruct (run_init_scan _ _ _ H) as (_ & S). eapply scan_write; eauto. Qed.
+Proof. exact write_own_id. Qed.
 Print Assumptions C10_write_own_id.
 
 (* Reconnect iff pending.  A dropped connection (client not closed): if any request is left that was not cancelled, a
@@ -83,6 +80,29 @@ Theorem C10_reconnect_iff_pending : forall s s' o, CInv s -> s_proto s = true ->
      o = [] /\ (s_proto s' = false /\ s_connector s' = CNone /\ s_down s' = DNone) /\ t_reqs (s_t s') = []).
 Proof. exact reconnect_on_loss. Qed.
 Print Assumptions C10_reconnect_iff_pending.
+
+(* Re-established WHENEVER unanswered requests remain - not only at the moment of the loss: in every reachable state of
+   a client that is not closed, if the table is non-empty and no connection is up then an attempt or a back-off timer is
+   pending (whatever sequence of losses, failures, cancels and requests led there). *)
+Theorem C10_never_stuck : forall evs s outs, run init evs = (s, outs) ->
+  s_down s = DNone -> s_proto s = false -> t_reqs (s_t s) <> [] ->
+  s_connector s = CAttempt \/ s_connector s = CTimer.
+Proof. exact never_stuck. Qed.
+Print Assumptions C10_never_stuck.
+
+(* never an attempt or a timer while a connection is up (so never a second connection) *)
+Theorem C10_one_connection : forall evs s outs, run init evs = (s, outs) -> s_proto s = true -> s_connector s = CNone.
+Proof. exact one_connection. Qed.
+Print Assumptions C10_one_connection.
+
+(* what the table holds: with a connection up only requests written on it that expect a reply (answered, no-reply and
+   unwritten-cancelled ones are gone); with none up nothing is marked written and there is no tombstone - so what the
+   next connection writes (C10_resend: the whole table) contains no cancelled, answered or no-reply request *)
+Theorem C10_table_shape : forall evs s outs, run init evs = (s, outs) ->
+  (s_proto s = true -> Forall (fun r => r_sent r = true /\ r_expect r = true) (t_reqs (s_t s)))
+  /\ (s_proto s = false -> Forall (fun r => r_sent r = false /\ r_cancelled r = false) (t_reqs (s_t s))).
+Proof. exact table_shape. Qed.
+Print Assumptions C10_table_shape.
 
 (* ... and an idle client opens a connection on the next request and on nothing else: every other event leaves it
    idle without any connection attempt (close ends it, also without one). *)
